@@ -266,7 +266,7 @@ func checkC14(p *Program, r *Report) {
 			}
 		})
 	}
-	r.Floor("R14.2", "stores to model struct fields", nFieldStores, 40)
+	r.Floor("R14.2", "stores to model struct fields", nFieldStores, 20)
 
 	// ---- R14.4
 	nK := 0
@@ -292,7 +292,7 @@ func checkC14(p *Program, r *Report) {
 		}
 		checkCausal(p, r, m.Kernel, m.RelPkg+"."+m.Kernel.Name(), series, 0)
 	}
-	r.Floor("R14.4", "kernels", nK, 35)
+	r.Floor("R14.4", "kernels", nK, 20)
 }
 
 func InModuleGlobal(g *ssa.Global) bool {
